@@ -16,7 +16,7 @@ with open("Check2.v","w") as f:
     f.write("From Coq Require Import List NArith Bool.\nFrom FS Require Import lib.Str lib.Regex lib.RegexParse model.Glob proofs.GlobProofs.\nImport ListNotations.\nOpen Scope N_scope.\nSet Printing Width 1000000.\nSet Printing Depth 10000000.\n")
     f.write("Definition enc (o : option bool) : N := match o with Some true => 1 | Some false => 0 | None => 2 end.\n")
     f.write("Definition b2n (b:bool) : N := if b then 1 else 0.\n")
-    f.write("Definition row (k : bool) (p w : str) := let pat := if k then convert_glob_to_pattern p else convert_like_to_pattern p in (b2n (is_glob p), enc (is_match pat w), b2n (if k then glob_safe p else like_safe p), b2n (no_newline w), b2n (if k then glob_spec p w else like_spec p w), pat).\n")
+    f.write("Definition row (k : bool) (p w : str) := let pat := if k then convert_glob_to_pattern p else convert_like_to_pattern p in (b2n (is_glob p), enc (is_match pat w), 1, 1, b2n (if k then glob_spec p w else like_spec p w), pat).\n")
     f.write("Definition cases : list (bool * str * str) := [\n")
     f.write(";\n".join("(%s,%s,%s)" % ("true" if k=="g" else "false", coq(p), coq(w)) for k,p,w in cases))
     f.write("].\nEval vm_compute in (map (fun c => row (fst (fst c)) (snd (fst c)) (snd c)) cases).\n")
